@@ -112,4 +112,10 @@ def opAuth (j : Json) : R Json := do
   let cp ← asStrList (← fld j "parts")
   pure (Json.mkObj [("ok", .bool (Dds.isAuthorizedPath a cp))])
 
+/-- {"op":"overlap","paths":[["a","b"],…]} -/
+def opOverlap (j : Json) : R Json := do
+  let ps ← (← fldArr j "paths").toList.mapM asStrList
+  let r := Dds.nonTerminalLeaves ps
+  pure (Json.mkObj [("ok", .arr (r.map (fun p => Json.arr (p.map Json.str).toArray)).toArray)])
+
 end Drv
